@@ -91,19 +91,35 @@ def byteset(body, e, consts, depth=0):
 
 
 def find_buffers(f):
-    """(adt, field) of every Vec<u8> whose taken content flows into from_utf8_unchecked"""
+    """(adt, field) of every Vec<u8> whose taken content flows into from_utf8_unchecked (also through a helper function that
+    receives the buffer as a parameter)"""
     bufs = {}
+
+    def fields_of(b, e, depth=0):
+        out = []
+        for x in walk(e):
+            if x[0] == 'field' and x[3] in f.adts:
+                out.append((x[3], x[2]))
+        if not out and depth < 2:
+            for x in walk(e):
+                if x[0] == 'arg' and x[3] == (b.d.get('root') or b.path) and b.d['kind'] != 'Closure':
+                    for cb in f.body_list:
+                        if cb.promoted is not None:
+                            continue
+                        for cpt, ct in cb.calls():
+                            cc = ct.get('callee')
+                            if cc and (cc.get('resolved') or cc['path']) == b.key and x[1] - 1 < len(ct['args']):
+                                out += fields_of(cb, cb.expr_of_operand(ct['args'][x[1] - 1]), depth + 1)
+        return out
     for b in f.body_list:
         for pt, t in b.calls():
             c = t.get('callee')
             if c and c['name'] == 'from_utf8_unchecked':
                 e = b.expr_of_operand(t['args'][0])
-                found = False
-                for x in walk(e):
-                    if x[0] == 'field' and x[3] in f.adts:
-                        bufs.setdefault((x[3], x[2]), []).append((b, t))
-                        found = True
-                if not found:
+                fl = fields_of(b, e)
+                for k in fl:
+                    bufs.setdefault(k, []).append((b, t))
+                if not fl:
                     bufs.setdefault((None, None), []).append((b, t))
     return bufs
 
@@ -225,35 +241,73 @@ def rule_line_reset(ctx):
     if len(dec) != 1:
         raise anchors.AnchorMissing('decoder Iterator::next in the decode_mappings cone: %d' % len(dec))
     b = dec[0]
+    dadt = b.d.get('impl_adt')
+    members = [m for m in f.body_list if m.promoted is None and (m.d.get('impl_adt') == dadt)]
+
+    def place_role(m, pl):
+        """(field name, constant index or None) of a place below the decoder state, or None"""
+        fld, idx = None, None
+        for x in pl['pr']:
+            if isinstance(x, dict) and x.get('o') == dadt and 'n' in x:
+                fld, idx = x['n'], None
+            elif isinstance(x, dict) and 'ci' in x:
+                idx = x['ci']
+            elif isinstance(x, dict) and 'i' in x:
+                ds = m.whole_defs(x['i'])
+                if len(ds) == 1 and ds[0][1] == 'assign' and ds[0][2]['r']['k'] == 'use' and ds[0][2]['r']['o'].get('k') == 'const':
+                    idx = ds[0][2]['r']['o'].get('int')
+                else:
+                    idx = '?'
+        return (fld, idx) if fld else None
+
+    def expr_roles(e):
+        out = set()
+        for x in walk(e):
+            if x[0] in ('index', 'cindex') and x[1][0] in ('field',) or (x[0] in ('index', 'cindex') and x[1][0] == 'deref'):
+                base = x[1]
+                while base[0] in ('deref', 'ref'):
+                    base = base[1]
+                if base[0] == 'field' and base[3] == dadt:
+                    k = x[2] if x[0] == 'cindex' else (x[2][1] if x[2][0] == 'const' else '?')
+                    out.add((base[2], k))
+        if not out:
+            for x in walk(e):
+                if x[0] == 'field' and x[3] == dadt:
+                    out.add((x[2], None))
+        return out
+
     line_keys, col_keys = set(), set()
-    members = [m for m in f.body_list if m.promoted is None and (m.d.get('impl_adt') == b.d.get('impl_adt'))]
     for m in members:
         for pt, s in m.points():
             if s['k'] == 'assign' and s['r']['k'] == 'agg' and s['r'].get('path') == mp:
                 ops = dict(zip(s['r']['fields'], s['r']['ops']))
                 for fld, keys in (('generated_line', line_keys), ('generated_column', col_keys)):
-                    o = ops[fld]
-                    from .panics import source_place
-                    sp = source_place(m, o)
-                    if sp is not None:
-                        # normalise to field path below the self reference
-                        keys.add(tuple(x.get('n', x.get('ci', x.get('f'))) if isinstance(x, dict) else x for x in sp['pr']))
+                    e = m.expr_of_operand(ops[fld])
+                    rl = expr_roles(e)
+                    if not rl:
+                        # built in a helper from its parameters: take the callers' actual arguments
+                        for x in walk(e):
+                            if x[0] == 'arg' and x[3] == m.key:
+                                for cm in members:
+                                    for cpt, ct in cm.calls():
+                                        cc = ct.get('callee')
+                                        if cc and (cc.get('resolved') or cc['path']) == m.key and x[1] - 1 < len(ct['args']):
+                                            rl |= expr_roles(cm.expr_of_operand(ct['args'][x[1] - 1]))
+                    keys |= rl
     if len(line_keys) != 1 or len(col_keys) != 1:
         r.violation('decoder-roles', b.span(), b.path, 'cannot identify the line / column state of the decoder (%s / %s)' % (line_keys, col_keys),
                     reason='unrecognised-idiom')
         return r
     lk, ck = next(iter(line_keys)), next(iter(col_keys))
-
-    def norm(p):
-        return tuple(x.get('n', x.get('ci', x.get('f'))) if isinstance(x, dict) else x for x in p['pr'])
     for m in members:
         incs, resets = [], []
         for pt, s in m.points():
-            if s['k'] != 'assign':
+            if s['k'] != 'assign' or not s['p']['pr']:
                 continue
-            if norm(s['p']) == lk and not (s['r']['k'] == 'use' and s['r']['o']['k'] == 'const'):
+            role = place_role(m, s['p'])
+            if role == lk and not (s['r']['k'] == 'use' and s['r']['o']['k'] == 'const'):
                 incs.append((pt, s))
-            if norm(s['p']) == ck and s['r']['k'] == 'use' and s['r']['o']['k'] == 'const' and s['r']['o'].get('int') == 0:
+            if role == ck and s['r']['k'] == 'use' and s['r']['o']['k'] == 'const' and s['r']['o'].get('int') == 0:
                 resets.append(pt)
         for pt, s in incs:
             ok = any(m.postdominates(rp, pt) or (rp[0] == pt[0]) for rp in resets)
